@@ -86,34 +86,11 @@ end field
 section ordered
 variable {R : Type} [Field R] [LinearOrder R] [IsStrictOrderedRing R]
 
-/-- what the axis-angle round trip needs of `sqrt`, `<`, `== 0` -/
-structure CmpStd (C : Cmp R) : Prop where
-  lt : ∀ a b, C.lt a b = decide (a < b)
-  eqz : ∀ x, C.eqz x = true ↔ x = 0
-  sqrt : ∀ z, 0 ≤ z → 0 ≤ C.sqrt z ∧ C.sqrt z * C.sqrt z = z
-
-/-- what it needs of the trigonometric functions (all true of the real ones) -/
+/-- what the axis-angle round trip needs of the trigonometric functions (all true of the real ones): `TrigOK` and the shift by `PI` -/
 structure TrigAA (T : Trig R) : Prop where
-  unit : ∀ x, T.cos x * T.cos x + T.sin x * T.sin x = 1
-  acos_spec : ∀ y, -1 ≤ y → y ≤ 1 → T.cos (T.acos y) = y ∧ 0 ≤ T.sin (T.acos y)
-  cos_zero : T.cos 0 = 1
-  sin_neg : ∀ x, T.sin (-x) = -T.sin x
-  cos_neg : ∀ x, T.cos (-x) = T.cos x
-  cos_pi : T.cos T.pi = -1
+  ok : TrigOK T
   sin_sub_pi : ∀ x, T.sin (x - T.pi) = -T.sin x
   cos_sub_pi : ∀ x, T.cos (x - T.pi) = -T.cos x
-
-theorem sqrt_sq {C : Cmp R} (hC : CmpStd C) (a : R) : C.sqrt (a * a) = |a| := by
-  obtain ⟨h1, h2⟩ := hC.sqrt (a * a) (mul_self_nonneg a)
-  rcases le_or_gt 0 a with h | h
-  · rw [abs_of_nonneg h]
-    rcases eq_or_lt_of_le h with e | e
-    · rw [← e] at h2 ⊢
-      have : C.sqrt (0 * 0) * C.sqrt (0 * 0) = 0 := by simpa using h2
-      exact mul_self_eq_zero.mp this
-    · exact pos_root_unique h1 e h2
-  · rw [abs_of_neg h]
-    exact pos_root_unique h1 (by linarith) (by rw [h2]; ring)
 
 /-- the quaternion rebuilt from a rotation vector `v·(a/k)` (`k = ‖v‖ ≠ 0`, `a ≠ 0`) -/
 theorem fromRotVec_scaled {C : Cmp R} (hC : CmpStd C) {T : Trig R} (hT : TrigAA T) (v : V3 R) (k a : R)
@@ -137,7 +114,7 @@ theorem fromRotVec_scaled {C : Cmp R} (hC : CmpStd C) {T : Trig R} (hT : TrigAA 
     congr 1 <;> field_simp
   · rw [abs_of_neg h]
     have e : (1 : R) / 2 * -a = -(1 / 2 * a) := by ring
-    rw [e, hT.sin_neg, hT.cos_neg]
+    rw [e, hT.ok.sin_neg, hT.ok.cos_neg]
     congr 1 <;> field_simp
 
 
@@ -167,55 +144,50 @@ theorem axisAngle_roundtrip_quat {C : Cmp R} (hC : CmpStd C) {T : Trig R} (hT : 
     have hz0 : C.eqz 0 = true := (hC.eqz 0).mpr rfl
     have hres : Gen.AA.fromRotVec (fld R) C T (Gen.AA.axisAngle (fld R) C T ⟨w, x, y, z⟩) = ⟨1, 0, 0, 0⟩ := by
       simp only [Gen.AA.axisAngle, hlen, heq, if_true]
-      simp [Gen.AA.fromRotVec, Gen.AA.fromAxisAngle, Gen.AA.length, Gen.AA.ofScalarVec, Gen.V3.smul, hs0, hz0, hT.cos_zero]
+      simp [Gen.AA.fromRotVec, Gen.AA.fromAxisAngle, Gen.AA.length, Gen.AA.ofScalarVec, Gen.V3.smul, hs0, hz0, hT.ok.cos_zero]
     rw [hres]
     subst hx; subst hy; subst hz
     rcases hw with rfl | rfl
     · left; rfl
     · right; simp [Gen.Q.neg]
   · have hkpos : 0 < k := lt_of_le_of_ne hk0 (Ne.symm hkz)
-    have hw2 : w * w < 1 := by nlinarith
-    have hw1 : w < 1 := by nlinarith
-    have hw1' : -1 < w := by nlinarith
-    obtain ⟨hc, hs⟩ := hT.acos_spec w (le_of_lt hw1') (le_of_lt hw1)
-    have hsk : T.sin (T.acos w) = k := by
-      apply pos_root_unique hs hkpos
-      have := hT.unit (T.acos w)
-      rw [hc] at this
-      linear_combination this - hq - hk2
+    -- `angle()` = 2·atan2(k, w), reduced to (-π, π]; (k, w) is a point of the unit circle
+    obtain ⟨hsk, hc⟩ := atan2_unit hT.ok k w (by linear_combination hq + hk2)
     have heq : C.eqz k = false := by
       rw [Bool.eq_false_iff]; intro h; exact hkz ((hC.eqz k).mp h)
     have hkk : k * k = x * x + y * y + z * z := hk2
-    -- the two outcomes of `angle()`
-    have hang : Gen.AA.angle (fld R) C T ⟨w, x, y, z⟩ = 2 * T.acos w ∨
-        Gen.AA.angle (fld R) C T ⟨w, x, y, z⟩ = 2 * T.acos w - 2 * T.pi := by
-      simp only [Gen.AA.angle, hC.lt, fld_lit, fld_neg, fld_mul, fld_sub, Nat.cast_one, Nat.cast_ofNat, hw1, hw1', decide_true,
-        Bool.not_true, Bool.false_eq_true, if_false]
+    have hang : Gen.AA.angle (fld R) C T ⟨w, x, y, z⟩ = 2 * T.atan2 k w ∨
+        Gen.AA.angle (fld R) C T ⟨w, x, y, z⟩ = 2 * T.atan2 k w - 2 * T.pi := by
+      simp only [Gen.AA.angle, fld_lit, fld_add, fld_mul, fld_sub, Nat.cast_ofNat, ← hkdef]
       split
       · left; rfl
       · right; rfl
     have hax : Gen.AA.axisAngle (fld R) C T ⟨w, x, y, z⟩ =
         Gen.V3.smul (fld R) ⟨x, y, z⟩ (Gen.AA.angle (fld R) C T ⟨w, x, y, z⟩ / k) := by
       simp only [Gen.AA.axisAngle, hlen, heq, Bool.false_eq_true, if_false, fld_div]
+    have hsinpi : T.sin T.pi = 0 := by
+      have := hT.sin_sub_pi T.pi
+      rw [sub_self, hT.ok.sin_zero] at this
+      linarith
     rw [hax]
     rcases hang with ha | ha <;> rw [ha]
-    · have ha0 : 2 * T.acos w ≠ 0 := by
+    · have ha0 : 2 * T.atan2 k w ≠ 0 := by
         intro h
-        have : T.acos w = 0 := by linarith
-        rw [this, hT.cos_zero] at hc
-        linarith
+        have : T.atan2 k w = 0 := by linarith
+        rw [this, hT.ok.sin_zero] at hsk
+        exact hkz hsk.symm
       rw [fromRotVec_scaled hC hT ⟨x, y, z⟩ k _ hkk hkz ha0]
-      have e : (1 : R) / 2 * (2 * T.acos w) = T.acos w := by ring
+      have e : (1 : R) / 2 * (2 * T.atan2 k w) = T.atan2 k w := by ring
       rw [e, hc, hsk]
       left
       congr 1 <;> field_simp
-    · have ha0 : 2 * T.acos w - 2 * T.pi ≠ 0 := by
+    · have ha0 : 2 * T.atan2 k w - 2 * T.pi ≠ 0 := by
         intro h
-        have : T.acos w = T.pi := by linarith
-        rw [this, hT.cos_pi] at hc
-        linarith
+        have : T.atan2 k w = T.pi := by linarith
+        rw [this, hsinpi] at hsk
+        exact hkz hsk.symm
       rw [fromRotVec_scaled hC hT ⟨x, y, z⟩ k _ hkk hkz ha0]
-      have e : (1 : R) / 2 * (2 * T.acos w - 2 * T.pi) = T.acos w - T.pi := by ring
+      have e : (1 : R) / 2 * (2 * T.atan2 k w - 2 * T.pi) = T.atan2 k w - T.pi := by ring
       rw [e, hT.cos_sub_pi, hT.sin_sub_pi, hc, hsk]
       right
       simp only [Gen.Q.neg, fld_neg]
